@@ -129,8 +129,9 @@ Section OneMessage.
     rewrite (trunc_small 32 secs) by (change (2 ^ 32) with 4294967296; exact Hs).
     rewrite (trunc_small 32 micros) by (change (2 ^ 32) with 4294967296; lia).
     rewrite <- !app_assoc. cbn [app]. do 4 f_equal. f_equal. f_equal. f_equal.
-    unfold ex, ts in *.
-    destruct (has_timestamp (m_std m)); destruct (m_ext m) as [e|]; cbn [is_some app ext_to_write a_vmm a_noar a_apid a_ctid amsg_of];
+    generalize (a_len (amsg_of m)). intros L.
+    clear. unfold ex, ts. cbn [a_vmm a_noar a_apid a_ctid amsg_of].
+    destruct (has_timestamp (m_std m)); destruct (m_ext m) as [e|]; cbn [is_some app ext_to_write];
       rewrite <- ?app_assoc; reflexivity.
   Qed.
 
@@ -149,8 +150,8 @@ Section OneMessage.
     - unfold storage_reception_time_us, a_storage_hdr, US_PER_SEC. cbn [sh_secs sh_micros a_secs a_micros amsg_of].
       pose proof (N.div_mod (m_reception_us m) 1000000 ltac:(lia)). lia.
     - unfold ts. destruct (has_timestamp (m_std m)) eqn:Eh; [reflexivity|]. symmetry. apply Hts0. reflexivity.
-    - unfold ex. destruct (m_ext m) as [e|]; [|reflexivity]. cbn [is_some a_vmm a_noar a_apid a_ctid amsg_of].
-      destruct e; reflexivity.
+    - unfold ex. cbn [a_vmm a_noar a_apid a_ctid amsg_of].
+      destruct (m_ext m) as [e|]; [|reflexivity]. cbn [is_some]. destruct e; reflexivity.
   Qed.
 
   Lemma reparsed_wf idx : wf_msg (reparsed idx m).
@@ -233,7 +234,9 @@ Lemma parse_after_marker_wf hsz pat short sh idx d n m :
   parse_after_marker hsz pat short sh idx d = PMsg n m -> wf_msg m.
 Proof.
   intros Hd Hs Hm. unfold parse_after_marker.
-  set (stdh := std_from_buf (skipn (N.to_nat hsz) d)).
+  assert (Hlen : len (std_from_buf (skipn (N.to_nat hsz) d)) <= 65535).
+  { unfold std_from_buf. cbn [len]. apply be16_le; apply byte_at_lt; apply wf_bytes_skipn; exact Hd. }
+  remember (std_from_buf (skipn (N.to_nat hsz) d)) as stdh eqn:Estdh. clear Estdh.
   set (hs := std_ext_header_size stdh).
   pose proof (hs_bounds stdh) as Hhs. fold hs in Hhs.
   destruct (N.ltb_spec (len stdh) hs) as [|H1]; [discriminate|].
@@ -242,8 +245,6 @@ Proof.
   intros E. inversion E; subst n m. clear E.
   unfold wf_msg, from_headers.
   cbn [m_ecu m_reception_us m_timestamp m_std m_ext m_payload].
-  assert (Hlen : len stdh <= 65535).
-  { unfold stdh, std_from_buf. cbn [len]. apply be16_le; apply byte_at_lt; apply wf_bytes_skipn; exact Hd. }
   split; [exact Hlen|].
   split.
   { fold hs. unfold blen at 1. rewrite slice_length; [lia|]. unfold blen in H2. lia. }
